@@ -15,7 +15,7 @@ import vlib
 KEYS = ["h1", "h2", "h3", "h1.i", "h2.i", "h3.i", "canc.h1", "canc.h2", "canc.h3",
         "reader", "writer", "closer", "peer", "main"]
 PARROTS = ["HelloGolang", "HelloChrome_Auto", "HelloFirefox_Auto"]
-DL_ANSWER, DL_STALL, SLACK = 4000, 250, 3000     # ms; a race-built handshake takes ~5-20 ms here
+DL_ANSWER, DL_STALL, DL_POST, SLACK = 4000, 250, 10000, 3000     # ms; a race-built handshake takes ~5-20 ms here
 
 
 NEED_ACTIONS = ["FastPath", "Begin", "Lock", "CheckDone", "FnOk", "FnErr", "Finish", "Unlock", "CloseDone", "HsOut", "RecvIntr",
@@ -101,11 +101,19 @@ def run_harness(ctx, scs, name, par):
 
 
 def parse_races(text):
+    """-> [{frames: top frame of each access, sig_frame: first utls frame of the writing access (else of any access)}]"""
     out = []
     for blk in text.split("WARNING: DATA RACE")[1:]:
-        frames = re.findall(r"^\s*(?:Write|Read|Previous write|Previous read|Atomic \w+) at .*?:\n\s+(\S+)\(", blk, re.M)
-        frames = [f for f in frames]
-        out.append({"frames": frames, "text": blk[:3000]})
+        accesses = []   # (kind, [functions of that stack])
+        for m in re.finditer(r"^(Write|Read|Previous write|Previous read|Atomic \w+|Previous atomic \w+) at [^\n]*\n((?:  \S[^\n]*\n      [^\n]*\n)+)", blk, re.M):
+            accesses.append((m.group(1), re.findall(r"^  (\S+)\(", m.group(2), re.M)))
+        tops = [fr[0] for (_, fr) in accesses if fr]
+        # first method of a connection type in the stack (the state owner), else first function of the package
+        lib = lambda fr: next((f for f in fr if "utls.(*" in f), None) or next((f for f in fr if "/utls." in f or f.startswith("utls.")), None)
+        writes = [lib(fr) for (k, fr) in accesses if "rite" in k]
+        anyf = [lib(fr) for (_, fr) in accesses]
+        sig = next((f for f in writes if f), None) or next((f for f in anyf if f), None) or (tops[0] if tops else "unknown")
+        out.append({"frames": tops, "sig_frame": sig, "text": blk[:3000]})
     return out
 
 
@@ -129,8 +137,11 @@ def module_copy(ctx, module, suffix, repl):
     return "%s_%s" % (module, suffix)
 
 
-def validate(ctx, results, tag, nshards, diag=False):
-    """-> set of indexes (into results) accepted by UConnConc_Trace, list of TLC results"""
+POST_KEYS = ["writer", "reader", "srvsend", "srvrecv", "main"]
+
+
+def validate(ctx, results, tag, nshards, diag=False, post=False):
+    """-> set of indexes (into results) accepted by UConnConc_Trace (post: UConnConcPost_Trace), list of TLC results"""
     if not results:
         return set(), []
     per = (len(results) + nshards - 1) // nshards
@@ -140,6 +151,10 @@ def validate(ctx, results, tag, nshards, diag=False):
         if not part:
             return k, None
         fn = "conc_trace_%s_%d.ndjson" % (tag, k)
+        if post:
+            ctx.write_ndjson(fn, [dict(sc=i + 1, cfg=r["cfg"], ev={k_: r["ev"].get(k_, []) for k_ in POST_KEYS}) for i, r in enumerate(part)])
+            mod = module_copy(ctx, "UConnConcPost_Trace", "%s_%d" % (tag, k), {"conc_post_trace.ndjson": fn})
+            return k, ctx.tlc(mod, cfg="UConnConcPost_Trace", workers=3, timeout=1500)
         ctx.write_ndjson(fn, [row(r, i + 1) for i, r in enumerate(part)])
         mod = module_copy(ctx, "UConnConc_Trace", "%s_%d" % (tag, k), {"conc_trace.ndjson": fn})
         return k, ctx.tlc(mod, cfg="UConnConc_TraceDiag" if diag else "UConnConc_Trace", workers=1 if diag else 3, timeout=1500)
@@ -218,8 +233,19 @@ def run(ctx):
     # ---- 1. hook-free runs under the race detector (seeded random delays)
     n_bare = 8 if quick else 60
     bare_scs = [scen("bare", c, max_us=rnd.choice([0, 100, 500, 2000, 6000])) for c in sets for _ in range(n_bare)]
-    bare, races = run_harness(ctx, bare_scs, "bare", par=12)
-    findings_races += [("bare", x) for x in races]
+    # post-handshake phase: reader + writer on an established TLS 1.3 UConn while the peer sends KeyUpdates
+    def post_scen():
+        next_id[0] += 1
+        c = dict(C([], [], [], reader=True, writer=True), gated=False, ordered=True, deadline=DL_POST, slack=SLACK)
+        return dict(id=next_id[0], mode="post", cfg=c, hist=[], seed=rnd.randrange(1 << 30), max_us=rnd.choice([0, 0, 30, 200]),
+                    parrot=rnd.choice(PARROTS), kus=[rnd.random() < 0.7 for _ in range(rnd.choice([8, 14, 20]))], max_wr=150)
+    post_scs = [post_scen() for _ in range(10 if quick else 80)]
+    both, races = run_harness(ctx, bare_scs + post_scs, "bare", par=12)
+    bare, post = both[:len(bare_scs)], both[len(bare_scs):]
+    findings_races += [("hook-free", x) for x in races]
+    for r in post:
+        if "setup_err" in r["meta"]:
+            raise vlib.Machinery("post-handshake scenario %d: TLS 1.3 handshake did not complete: %s" % (r["sc"], r["meta"]["setup_err"]))
 
     def summary(r):
         rets, tmax = {}, 0
@@ -259,13 +285,23 @@ def run(ctx):
     def live_run():
         ctx.write_json("conc_mc.json", {"cfgs": live_sets, "obs": []})
         return ctx.tlc("UConnConc_Live", workers=3, timeout=1500)
-    with cf.ThreadPoolExecutor(max_workers=4 if quick else 3) as ex:
+    with cf.ThreadPoolExecutor(max_workers=5 if quick else 4) as ex:
         f_sched = ex.submit(run_mc, ctx, sets, [], "sched", 3, None, False, True)
         f_sim = ex.submit(run_mc, ctx, sets, [], "sim", 3, (n_sim, ctx.seed))
         f_live = ex.submit(live_run)
+        f_pmc = ex.submit(lambda: ctx.tlc("UConnConcPost_MC", workers=3))
+        f_pmut = ex.submit(lambda: ctx.tlc("UConnConcPost_MC", cfg="UConnConcPost_Mut", workers=2, count=False))
+        f_pval = ex.submit(validate, ctx, post, "post", 1 if quick else 6, False, True)
         f_mc = [ex.submit(mc_shard, g) for g in groups]
         sched, sim, live = f_sched.result(), f_sim.result(), f_live.result()
+        pmc, pmut, (pacc, _) = f_pmc.result(), f_pmut.result(), f_pval.result()
         mc_results = [f.result() for f in f_mc]
+    if pmc.violated:
+        raise vlib.Machinery("model-level violation in UConnConcPost_MC (mechanism as coded): %s" % pmc.violated)
+    if "SafetyPost" not in pmut.violated:
+        raise vlib.Machinery("vacuity: UConnConcPost with reply and rotation in separate steps does not violate SafetyPost")
+    ctx.traces += len(pacc)
+    post_rejected = [i for i in range(len(post)) if i not in pacc]
     for g, idx, res, has_canary in mc_results:
         if res.violated:
             raise vlib.Machinery("model-level violation in UConnConc_MC for set(s) %s: %s (the as-is model is expected to satisfy its properties; "
@@ -372,6 +408,26 @@ def run(ctx):
                     "outcome of a hook-free run is not a reachable outcome of UConnConc (%d of 40 re-runs): rets=%s complete=%s closed=%s tmax=%dms hung=%s" % (len(bad), cls, o["complete"], o["closed"], o["tmax"], o["hung"]),
                     {"scenario": r["scen"], "outcome": o})
 
+    # post-handshake runs the model does not explain: re-run the scenario and fresh seeds of it, judge again
+    if post_rejected:
+        r = post[post_rejected[0]]
+        batch = [dict(r["scen"], id=n + 1, seed=(r["scen"]["seed"] if n < 3 else rnd.randrange(1 << 30))) for n in range(12)]
+        again, races2 = run_harness(ctx, batch, "repost", par=6)
+        findings_races += [("hook-free", x) for x in races2]
+        acc2, _ = validate(ctx, again, "repost", 2, False, True)
+        bad = [again[n] for n in range(len(again)) if n not in acc2]
+        if not bad:
+            unrepro.append("rejection of post-handshake scenario %d did not reproduce in 12 re-runs" % r["sc"])
+        else:
+            b = bad[0]
+            evs = flat_events(b)
+            odd = [e for e in evs if e["ev"] in ("srverr", "hang", "panic") or (e["ev"] == "ret" and not e["isnil"] and e["err"] != "EOF")]
+            what = ("%s:%s" % (odd[0]["ev"], re.sub(r"[^a-zA-Z]+", "_", odd[0]["err"])[:40])) if odd else "stream"   # label only
+            ctx.finding("post:%s" % what,
+                        "post-handshake run (reader + writer + peer KeyUpdates) is not a behaviour of UConnConcPost (%d of the first batch, %d of 12 re-runs): "
+                        "written=%s received=%s first odd event %s" % (len(post_rejected), len(bad), b["meta"].get("written"), b["meta"].get("received"),
+                                                                        json.dumps(odd[0]) if odd else "none"),
+                        {"scenario": b["scen"], "events": evs[-60:]})
     if unrepro and not ctx.findings:
         raise vlib.Machinery(unrepro[0])
     for u in unrepro:
@@ -385,6 +441,24 @@ def run(ctx):
     cacc, _ = validate(ctx, [c for (_, c) in canaries], "canary", 1)
     if cacc:
         raise vlib.Machinery("binding canary accepted: %s" % [canaries[i][0] for i in sorted(cacc)])
+
+    pgood = [post[i] for i in sorted(pacc)]
+    pcan = make_post_canaries(pgood)
+    if len(pcan) < 3 and not ctx.findings:
+        raise vlib.Machinery("could not build the post-handshake canaries (%d)" % len(pcan))
+    if pcan:
+        pcacc, _ = validate(ctx, [c for (_, c) in pcan], "pcanary", 1, False, True)
+        if pcacc:
+            raise vlib.Machinery("post-handshake binding canary accepted: %s" % [pcan[i][0] for i in sorted(pcacc)])
+    pseen = set()
+    for r in pgood:
+        for e in flat_events(r):
+            if e["ev"] == "ku":
+                pseen.add("ku_requested" if e["req"] else "ku_not_requested")
+            if e["ev"] == "got":
+                pseen.add("got")
+    if {"ku_requested", "ku_not_requested", "got"} - pseen and not ctx.findings:
+        raise vlib.Machinery("vacuity: post-handshake behaviours never observed in an accepted run: %s" % sorted({"ku_requested", "ku_not_requested", "got"} - pseen))
 
     # ---- 9. vacuity of the validation: the interesting behaviours were really observed and accepted
     seen = set()
@@ -411,7 +485,7 @@ def run(ctx):
         fr = x["frames"]
         if fr and all(f.startswith("main.") or f.startswith("verif/harness") for f in fr[:2]):
             raise vlib.Machinery("data race inside the harness itself:\n" + x["text"])
-        top = fr[0] if fr else "unknown"
+        top = x.get("sig_frame") or (fr[0] if fr else "unknown")
         ctx.finding("race:%s" % top.split("/")[-1], "data race reported by the Go race detector (%s runs)" % where, {"report": x["text"]})
 
     outcomes = {json.dumps([cfg_key(o["cfg"]), {p: (e["isnil"], e["err"] == e["ctxerr"] and e["ctxerr"] != "") for p, e in o["ret"].items()}, o["complete"], o["closed"]], sort_keys=True) for o in obs_all}
@@ -425,13 +499,13 @@ def run(ctx):
         sample.append({"mode": "bare", "cfg": o["cfg"], "rets": {p: (e["err"] or "nil") for p, e in o["ret"].items() if e["err"] != "absent"},
                        "complete": o["complete"], "closed": o["closed"]})
     cov_out = {
-        "evaluations": len(bare) + len(ordered),
+        "evaluations": len(bare) + len(ordered) + len(post),
         "distinct_nontrivial": len(gate_orders) + len(outcomes),
         "rule": "evaluations = executions of a real UConn (race build) whose log was judged by TLC; distinct = distinct observed "
                 "call/gate/close orders among gated runs + distinct (process set, return classes, complete, closed) outcomes among hook-free runs",
         "process_sets": len(sets), "mc_terminal_states": mc_terminal, "schedules_from_mc": len(schedules), "schedules_from_simulation": len(sim_scn),
         "schedules_replayed": n_replay, "replayed_without_divergence": faithful, "stress_runs_ordered": len(stress_scs),
-        "bare_runs": len(bare), "bare_outcomes_explained": explained, "traces_accepted": len(acc), "traces_rejected": len(rejected),
+        "bare_runs": len(bare), "post_handshake_runs": len(post), "post_runs_accepted": len(pacc), "post_key_updates": sum(len(x["scen"]["kus"]) for x in post), "post_model_states": pmc.distinct, "bare_outcomes_explained": explained, "traces_accepted": len(acc), "traces_rejected": len(rejected),
         "canaries_rejected": len(canaries), "race_reports": len(findings_races), "model_actions_on_emitted_paths": len(taken), "behaviours_seen": sorted(seen),
         "liveness_states": live.distinct, "samples": sample, "exhaustive": True,
         "exhaustive_note": "exhaustive over interleavings of the listed bounded process sets at gate granularity (model level); real-code binding is by sampling schedules",
@@ -442,6 +516,29 @@ def run(ctx):
         "the run-wide lock that orders the gated logs adds happens-before edges, so data races are looked for in the hook-free runs",
         "Go race detector: only races on executed interleavings are reported",
     ]
+
+
+def make_post_canaries(good):
+    """Corrupt accepted post-handshake runs; each must be rejected by UConnConcPost_Trace."""
+    import copy
+    out = []
+    for r in good:
+        got = r["ev"].get("srvrecv", [])
+        wr = r["ev"].get("writer", [])
+        if len(got) < 3 or len(wr) < 6:
+            continue
+        c = copy.deepcopy(r); c["ev"]["srvrecv"][1]["sum"] ^= 1
+        out.append(("delivered digest differs from written", c))
+        c = copy.deepcopy(r); del c["ev"]["srvrecv"][len(got) // 2]; renumber(c)
+        out.append(("a message never arrived", c))
+        c = copy.deepcopy(r)
+        n = next(i for i, e in enumerate(c["ev"]["writer"]) if e["ev"] == "ret")
+        c["ev"]["writer"][n]["isnil"] = False; c["ev"]["writer"][n]["err"] = "canary"
+        out.append(("a Write failed", c))
+        c = copy.deepcopy(r); c["ev"]["srvrecv"][len(got) - 1]["n"] += 1
+        out.append(("peer sequence number not contiguous", c))
+        break
+    return out
 
 
 def observed_schedule(r):
